@@ -83,9 +83,9 @@ def check_remove_unreachable(ctx, rep, f, rule=RULE + '.M12'):
     (the initial state included), the transitions are those of the reachable states, the operand is untouched."""
     cases = 0
     try:
-        for name, (Q, Sigma, delta, q0, F, what) in _DFAS.items():
+        for (name, (Q, Sigma, delta, q0, F, what)), order in itertools.product(_DFAS.items(), ('asc', 'desc')):
             D = _mk(Q, Sigma, delta, q0, F)
-            ok, got = _run(rule, rep, f, lambda: Interp(ctx, classes={'DFA': _dfa_class}).call(f, [D]), 'on the DFA "{}"'.format(name))
+            ok, got = _run(rule, rep, f, lambda: _interp(ctx, order, classes={'DFA': _dfa_class}).call(f, [D]), 'on the DFA "{}"'.format(name))
             if not ok:
                 return
             if not isinstance(got, Obj) or got._cls != 'DFA':
@@ -106,7 +106,7 @@ def check_remove_unreachable(ctx, rep, f, rule=RULE + '.M12'):
     except (Unsupported, RecursionError) as e:
         rep.undecided(rule, f, 'def ' + f.name, 'outside the evaluator: {}'.format(e))
         return
-    rep.holds(rule, f, 'def ' + f.name, 'on {} model DFAs (initial state final / not final, unreachable final state, nothing unreachable, a single state) the result has exactly the reachable states, the reachable final states and their transitions, and the operand is untouched'.format(cases))
+    rep.holds(rule, f, 'def ' + f.name, 'on {} runs (four model DFAs under two iteration orders of sets: initial state final / not final, unreachable final state, nothing unreachable, a single state) the result has exactly the reachable states, the reachable final states and their transitions, and the operand is untouched'.format(cases))
 
 
 _MIN_DFAS = {
@@ -125,10 +125,10 @@ def check_minimiser(ctx, rep, f, rule=RULE + '.M13'):
     the operand is untouched."""
     cases = 0
     try:
-        for name, (Q, Sigma, delta, q0, F, n_min) in _MIN_DFAS.items():
+        for (name, (Q, Sigma, delta, q0, F, n_min)), order in itertools.product(_MIN_DFAS.items(), ('asc', 'desc')):
             assert _nerode_classes(Q, Sigma, delta, F) == n_min
             D = _mk(Q, Sigma, delta, q0, F)
-            ok, got = _run(rule, rep, f, lambda: Interp(ctx, classes={'DFA': _dfa_class}, max_steps=200000).call(f, [D]), 'on the DFA "{}"'.format(name))
+            ok, got = _run(rule, rep, f, lambda: _interp(ctx, order, classes={'DFA': _dfa_class}, max_steps=200000).call(f, [D]), 'on the DFA "{}"'.format(name))
             if not ok:
                 return
             if not isinstance(got, Obj) or got._cls != 'DFA':
@@ -156,7 +156,7 @@ def check_minimiser(ctx, rep, f, rule=RULE + '.M13'):
     except (Unsupported, RecursionError) as e:
         rep.undecided(rule, f, 'def ' + f.name, 'outside the evaluator: {}'.format(e))
         return
-    rep.holds(rule, f, 'def ' + f.name, 'on {} model DFAs with every state reachable (two equivalent sinks, a swapping pair, F = Q, F empty on a cycle, two minimal ones) the result is a valid total DFA over the same alphabet with the same words up to length 5 and exactly the Myhill-Nerode number of states; the operand is untouched'.format(cases))
+    rep.holds(rule, f, 'def ' + f.name, 'on {} runs (six model DFAs with every state reachable, under two iteration orders of sets: two equivalent sinks, a swapping pair, F = Q, F empty on a cycle, two minimal ones) the result is a valid total DFA over the same alphabet with the same words up to length 5 and exactly the Myhill-Nerode number of states; the operand is untouched'.format(cases))
 
 
 def _iso_reference(A, B):
@@ -198,11 +198,11 @@ def check_isomorphism(ctx, rep, f, rule=RULE + '.M14'):
     against a 2-cycle), renamed copies, a difference in acceptance at the start and later, and unreachable states."""
     cases = 0
     try:
-        for n1, n2 in _ISO_PAIRS:
+        for (n1, n2), order in itertools.product(_ISO_PAIRS, ('asc', 'desc')):
             A, B = _ISO[n1], _ISO[n2]
             want = _iso_reference(A, B)
             D1, D2 = _mk(*A), _mk(*B)
-            ok, got = _run(rule, rep, f, lambda: Interp(ctx, classes={'DFA': _dfa_class}, max_steps=200000).call(f, [D1, D2]), 'on the pair ({}, {})'.format(n1, n2))
+            ok, got = _run(rule, rep, f, lambda: _interp(ctx, order, classes={'DFA': _dfa_class}, max_steps=200000).call(f, [D1, D2]), 'on the pair ({}, {})'.format(n1, n2))
             if not ok:
                 return
             if not isinstance(got, bool):
@@ -215,7 +215,7 @@ def check_isomorphism(ctx, rep, f, rule=RULE + '.M14'):
     except (Unsupported, RecursionError) as e:
         rep.undecided(rule, f, 'def ' + f.name, 'outside the evaluator: {}'.format(e))
         return
-    rep.holds(rule, f, 'def ' + f.name, 'on {} model pairs (a loop against a 2-cycle in both orders, renamed copies, acceptance differing at the start and later, a swapped transition, unreachable states) the answer is True exactly when a bijection of the reachable states exists'.format(cases))
+    rep.holds(rule, f, 'def ' + f.name, 'on {} runs (14 model pairs under two iteration orders of sets: a loop against a 2-cycle in both orders, renamed copies, acceptance differing at the start and later, a swapped transition, unreachable states) the answer is True exactly when a bijection of the reachable states exists'.format(cases))
 
 
 class _Sym(str):
@@ -276,9 +276,9 @@ def check_nullable(ctx, rep, f, rule=RULE + '.M15'):
     chains and cycles of nullable variables, and no epsilon rule at all."""
     cases = 0
     try:
-        for name, rules in _GRAMMARS.items():
+        for (name, rules), order in itertools.product(_GRAMMARS.items(), ('asc', 'desc')):
             G = _grammar(rules)
-            ok, got = _run(rule, rep, f, lambda: Interp(ctx, max_steps=200000).call(f, [G]), 'on the grammar {}'.format(name))
+            ok, got = _run(rule, rep, f, lambda: _interp(ctx, order, max_steps=200000).call(f, [G]), 'on the grammar {}'.format(name))
             if not ok:
                 return
             if not isinstance(got, (set, frozenset)):
@@ -293,4 +293,81 @@ def check_nullable(ctx, rep, f, rule=RULE + '.M15'):
     except (Unsupported, RecursionError) as e:
         rep.undecided(rule, f, 'def ' + f.name, 'outside the evaluator: {}'.format(e))
         return
-    rep.holds(rule, f, 'def ' + f.name, 'on {} model grammars (a nullable variable twice next to a non-nullable one, terminals inside right-hand sides, chains and cycles, no epsilon rule) the result is the least fixpoint of the definition'.format(cases))
+    rep.holds(rule, f, 'def ' + f.name, 'on {} runs (seven model grammars under two iteration orders of sets: a nullable variable twice next to a non-nullable one, terminals inside right-hand sides, chains and cycles, no epsilon rule) the result is the least fixpoint of the definition'.format(cases))
+
+
+def _interp(ctx, order, **kw):
+    it = Interp(ctx, **kw)
+    it.set_order = order
+    return it
+
+
+def _rules_of(G):
+    out = []
+    for r in G._f['R']:
+        out.append((str(r._f['variable']), [(str(x), getattr(x, '_gt_cls', None)) for x in r._f['alternative']._f['symbols']]))
+    return out
+
+
+def _words(rules, S, k):
+    """the words of length <= k that S derives (grammars of the models have no epsilon rules: forms never shrink)"""
+    by = {}
+    for lhs, syms in rules:
+        by.setdefault(lhs, []).append(syms)
+    seen, todo, words = set(), [((S, 'Variable'),)], set()
+    while todo:
+        form = todo.pop()
+        if form in seen or len(form) > k:
+            continue
+        seen.add(form)
+        idx = next((i for i, (x, kind) in enumerate(form) if kind == 'Variable'), None)
+        if idx is None:
+            words.add(''.join(x for x, _ in form))
+            continue
+        for syms in by.get(form[idx][0], []):
+            todo.append(form[:idx] + tuple(syms) + form[idx + 1:])
+    return words
+
+
+_CFG_CLASSES = {'Rule': lambda v, alt: Obj('Rule', variable=v, alternative=alt), 'Alternative': lambda syms: Obj('Alternative', symbols=syms)}
+
+_UNIT_GRAMMARS = {
+    'S -> B; B -> A | b; A -> B | C; C -> c': [('S', ['B']), ('B', ['A', 'b']), ('A', ['B', 'C']), ('C', ['c'])],
+    'S -> A | B; A -> B; B -> A': [('S', ['A', 'B']), ('A', ['B']), ('B', ['A'])],
+    'S -> aS | T; T -> U | b; U -> c | T': [('S', ['aS', 'T']), ('T', ['U', 'b']), ('U', ['c', 'T'])],
+    'S -> AB; A -> a; B -> b': [('S', ['AB']), ('A', ['a']), ('B', ['b'])],
+    'S -> S | a': [('S', ['S', 'a'])],
+    'S -> A; A -> B; B -> C | AA; C -> A | a': [('S', ['A']), ('A', ['B']), ('B', ['C', 'AA']), ('C', ['A', 'a'])],
+}
+
+
+def check_unit_elimination(ctx, rep, f, rule=RULE + '.M16'):
+    """cfg_eliminate_unit_rules_in_place on model grammars with unit-rule cycles that have an exit, a start variable that only
+    reaches unit rules (empty language), a self-loop and no unit rule at all, each under two iteration orders of the
+    variable set: afterwards no unit rule is left and the words up to length 3 are those of the operand."""
+    cases = 0
+    try:
+        for name, rules in _UNIT_GRAMMARS.items():
+            for order in ('asc', 'desc'):
+                G = _grammar(rules)
+                before = _words(_rules_of(G), 'S', 3)
+                ok, _ = _run(rule, rep, f, lambda: _interp(ctx, order, classes=_CFG_CLASSES, max_steps=400000).call(f, [G]),
+                             'on the grammar {} (a grammar whose start variable keeps no rule still has a language: the empty one)'.format(name))
+                if not ok:
+                    return
+                after_rules = _rules_of(G)
+                cases += 1
+                unit = [(lhs, syms) for lhs, syms in after_rules if len(syms) == 1 and syms[0][1] == 'Variable']
+                if unit:
+                    rep.violates(rule, f, 'def ' + f.name, 'on the grammar {} the unit rule {} -> {} is left'.format(name, unit[0][0], unit[0][1][0][0]))
+                    return
+                after = _words(after_rules, str(G._f['S']), 3)
+                if after != before:
+                    rep.violates(rule, f, 'def ' + f.name, 'on the grammar {} (variables visited in {} order) the words up to length 3 change from {} to {}: {}'.format(
+                        name, 'ascending' if order == 'asc' else 'descending', sorted(before), sorted(after),
+                        'the unit closure of a variable on a cycle is incomplete' if before - after else 'rules are copied to a variable that does not derive them'))
+                    return
+    except (Unsupported, RecursionError) as e:
+        rep.undecided(rule, f, 'def ' + f.name, 'outside the evaluator: {}'.format(e))
+        return
+    rep.holds(rule, f, 'def ' + f.name, 'on {} runs (six model grammars: unit cycles with an exit, a start variable that only reaches unit rules, a self-loop, no unit rule; two iteration orders of the variable set) no unit rule is left and the words up to length 3 are unchanged'.format(cases))
